@@ -40,7 +40,9 @@ func (t *Track) Close(deltaticks uint32) {
 	if t.IsClosed() {
 		return
 	}
-	*t = append(*t, Event{Delta: deltaticks, Message: EOT})
+	// every track gets an end of track message of its own: the caller may change the messages of a track
+	// in place or append to them, the package variable EOT must not be reachable through a track
+	*t = append(*t, Event{Delta: deltaticks, Message: append(Message(nil), EOT...)})
 }
 
 func (t *Track) Add(deltaticks uint32, msgs ...[]byte) {
